@@ -432,6 +432,90 @@ def h_iter(F, res):
     res.floor("functions in the compile closure", len(reach), 80)
 
 
+def _nonempty(F, f, du, cfg, use_bb, op, depth=0):
+    """is the map handed over at `use_bb` known to hold an entry?  (ok, why)"""
+    MAPTY = re.compile(r"(BTreeMap|HashMap)<")
+    org = mir.provenance(f, du, op, transparent_extra=("std::ops::Try::branch",))
+    if not org:
+        return False, "unknown origin"
+    whys = []
+    for o in org:
+        if o.kind in ("arg", "local") and any(p_.startswith(" as Multiasset") or p_ == " as Some" for p_ in o.proj):
+            whys.append("payload of an existing value")
+            continue
+        if o.kind == "call":
+            c = o.callee or ""
+            g = F.fns.get((o.term or {}).get("resolved") or c)
+            if c.endswith("BTreeMap::<K, V>::new") or c.endswith("BTreeMap::<K, V, A>::new_in") or c.endswith("HashMap::<K, V>::new"):
+                # a fresh map: some unconditional insert into it dominates the use
+                m = o.term["dest"]["l"]
+                okk = False
+                for bi, t in mir.calls(f):
+                    if (t.get("callee") or "").endswith("::insert") and t["args"] and cfg.dominates(bi, use_bb):
+                        if any(x.kind == "call" and x.term is o.term for x in mir.provenance(f, du, t["args"][0], transparent_extra=("std::ops::DerefMut::deref_mut",))):
+                            okk = True
+                if okk:
+                    whys.append("a fresh map with an insert on every path to here")
+                    continue
+                return False, "a fresh map into which nothing is inserted on every path (it can be empty)"
+            if g is not None and g["crate"] == "tx3_cardano" and depth < 2:
+                if " as Some" in o.proj and g["locals"][0].startswith("std::option::Option<") and MAPTY.search(g["locals"][0]):
+                    whys.append("Some payload of %s (every `Some(map)` is judged by S-PRESENT)" % g["path"].split("::")[-1])
+                    continue
+                dg, cg = mir.DefUse(g), mir.CFG(g)
+                rets = []
+                for bj, sj, s2 in mir.stmts(g):
+                    if s2["lhs"]["l"] == 0 and not s2["lhs"]["p"]:
+                        r2 = s2["rv"]
+                        if r2["k"] == "agg" and r2.get("variant") in ("Ok", "Some") and r2["ops"]:
+                            rets.append((bj, r2["ops"][0]))
+                        elif r2["k"] == "use" and MAPTY.search(g["locals"][0]) and not g["locals"][0].startswith(("std::result::Result<", "std::option::Option<")):
+                            rets.append((bj, r2["op"]))
+                if not rets:
+                    return False, "what %s returns could not be followed" % g["path"].split("::")[-1]
+                for bj, rop in rets:
+                    okk, why = _nonempty(F, g, dg, cg, bj, rop, depth + 1)
+                    if not okk:
+                        return False, "%s can return an empty map (%s)" % (g["path"].split("::")[-1], why)
+                whys.append("every return of %s is a non-empty map" % g["path"].split("::")[-1])
+                continue
+            if c.endswith("::from") and any(re.search(r"\[\(.*\); [1-9]\d*\]", x) for x in (o.term.get("gargs") or [])):
+                whys.append("built from a non-empty array literal")
+                continue
+            return False, "it comes out of `%s`, which can yield an empty map" % c.split("::")[-1]
+        return False, "origin %r" % o
+    return True, "; ".join(sorted(set(whys)))
+
+
+def s_value(F, res):
+    """S-PRESENT for output values: `Value::Multiasset(coin, assets)` is built only around a map that is known to hold an entry -
+    a fresh map with an insert on every path (the `asset!` form), the `Some` payload of an aggregation that answers `None` for
+    "nothing left", the payload of an existing value, or what a function of the crate returns under the same rule.  A map out
+    of `unwrap_or_default()`, `get_or_insert_with(BTreeMap::new)` or a fold that may see nothing puts `[coin, {}]` on the wire
+    for an output whose native-asset quantity is zero."""
+    n = 0
+    for p, f in sorted(F.fns.items()):
+        if f["crate"] != "tx3_cardano" or f.get("derived"):
+            continue
+        du = cfg = None
+        k = 0
+        for bi, si, s in mir.stmts(f):
+            rv = s["rv"]
+            if not (rv["k"] == "agg" and rv.get("variant") == "Multiasset" and rv.get("adt", "").endswith("Value") and len(rv["ops"]) == 2):
+                continue
+            n += 1
+            k += 1
+            du = du or mir.DefUse(f)
+            cfg = cfg or mir.CFG(f)
+            key = "%s|Value::Multiasset #%d carries a non-empty map" % (f.get("owner") or p, k)
+            okk, why = _nonempty(F, f, du, cfg, bi, rv["ops"][1])
+            if okk:
+                res.add([ok("S-PRESENT", key, where(f, s["line"]), why)])
+            else:
+                res.add([finding("S-PRESENT", key, where(f, s["line"]), "a `Value::Multiasset` is built around a map that can be empty (%s): the output is encoded as `[coin, {}]` instead of plain `coin`" % why)])
+    res.count("Value::Multiasset constructions", n)
+
+
 def s_lang(F, res):
     """S-LANG: the script-data hash commits to the language view of a script kind the witness set *carries*.  In the function
     that builds the `LanguageView` (found by role, the crate's helpers inlined):
@@ -570,6 +654,7 @@ def run(ctx):
     s_prune(F, res)
     s_present(F, res)
     s_sets(F, res)
+    s_value(F, res)
     s_lang(F, res)
     h_iter(F, res)
     return res
